@@ -303,6 +303,8 @@ impl CompactionWorker {
                 compaction_range = manual_compaction.clone_key_range();
             }
 
+            #[cfg(feature = "verif_hooks")]
+            crate::verif::bump(crate::verif::Counter::ManualCompaction);
             maybe_compaction_manifest = db_fields_guard
                 .version_set
                 .compact_range(compaction_level, compaction_range);
@@ -344,6 +346,8 @@ impl CompactionWorker {
                 // move the file to the next level
                 assert!(compaction_manifest.get_compaction_level_files().len() == 1);
 
+                #[cfg(feature = "verif_hooks")]
+                crate::verif::bump(crate::verif::Counter::TrivialMove);
                 log::debug!("Determined that the compaction can be completed with a trival move");
                 compaction_manifest.set_change_manifest_for_trivial_move();
                 let apply_result = VersionSet::log_and_apply(
@@ -614,6 +618,8 @@ impl CompactionWorker {
 
                 while file_iterator.is_valid() && !db_state.is_shutting_down.load(Ordering::Acquire)
                 {
+                    #[cfg(feature = "verif_hooks")]
+                    crate::verif::point("compaction.step");
                     if db_state.has_immutable_memtable.load(Ordering::Acquire) {
                         // Prioritize compacting an immutable memtable if there is one
                         let memtable_compaction_start = Instant::now();
@@ -777,6 +783,8 @@ impl CompactionWorker {
             compaction_stats;
 
         if compaction_error.is_none() {
+            #[cfg(feature = "verif_hooks")]
+            crate::verif::bump(crate::verif::Counter::TableCompaction);
             let install_result = CompactionWorker::install_compaction_results(
                 db_fields_guard,
                 &mut compaction_state,
